@@ -69,9 +69,11 @@ Definition rule_entry (qk : quirks) (r : reg) (new : string) (old : option strin
             Ok (o, <[ new := (1 / vo)%Qc ]> others)
         end
   end.
+(** the text parser reads every rule line before [from_definition] looks at the first one *)
 Definition rules_table (qk : quirks) (r : reg) (rules : list string) : res (gmap string uc) :=
-  foldM (λ acc line, ' (new, old) ←r parse_rule line; ' (o, d) ←r rule_entry qk r new old; Ok (<[ o := d ]> acc))
-        rules ∅.
+  parsed ←r foldM (λ acc line, p ←r parse_rule line; Ok (acc ++ [p])) rules [];
+  foldM (λ acc (p : string * option string), ' (o, d) ←r rule_entry qk r p.1 p.2; Ok (<[ o := d ]> acc))
+        parsed ∅.
 (** [System.from_lines] / [from_definition]: nothing is registered when a rule fails *)
 Definition new_system (qk : quirks) (r : reg) (st : sstate) (name : string) (usingl rules : list string)
   : sstate * res unit :=
